@@ -47,5 +47,5 @@ def gen_cases(rng, tier, count=None):
 
 def run_case(case):
     m = SequOOLMon()
-    ctx = drive(case, [m])
+    ctx = drive(case, [m], own=PROP)
     return result_of(ctx, [m], prefix=PROP, nontrivial=lambda ctx, res: res["obs"].get("opens_judged", 0) >= 5)
